@@ -31,9 +31,7 @@ Theorem L3_rank128 : forall ws i,
   (forall r bit, rank128 ws (index_rank128 ws 0) i = Val (r, bit) ->
                  r = rank_spec ws i /\ bit = N.b2n (bm_get ws i)) /\
   (i < 64 * N.of_nat (length ws) -> exists r bit, rank128 ws (index_rank128 ws 0) i = Val (r, bit)).
-Proof.
-  intros ws i Hok. split; [intros r bit; exact (rank128_correct ws i r bit Hok)|exact (rank128_total ws i)].
-Qed.
+Proof. exact rank128_both. Qed.
 Print Assumptions L3_rank128.
 
 (* Select32R64 with the indexes of IndexSelect32R64: position of the i-th set bit and of the
@@ -90,9 +88,7 @@ Print Assumptions L3_vlen_out_of_bound.
 Theorem L3_encode_total : forall nodes ipfx lpfx leaves,
   flat_wf ipfx lpfx nodes leaves = true -> nodes <> [] ->
   exists m vs, encode_msg nodes ipfx lpfx leaves = Val m /\ init_vars m = Val vs /\ m_shortsize m <= 10.
-Proof.
-  intros nodes ipfx lpfx leaves H. apply andb_prop in H. exact (encode_total nodes ipfx lpfx leaves (proj1 H)).
-Qed.
+Proof. exact encode_total_fw. Qed.
 Print Assumptions L3_encode_total.
 
 (* getNode + label extraction + first child on the encoded message = the node of the list:
@@ -102,10 +98,7 @@ Theorem L3_get_view : forall nodes ipfx lpfx leaves m vs,
   flat_wf ipfx lpfx nodes leaves = true ->
   encode_msg nodes ipfx lpfx leaves = Val m -> init_vars m = Val vs ->
   forall p v, nth_error nodes p = Some v -> get_view m vs (N.of_nat p) = Val v.
-Proof.
-  intros nodes ipfx lpfx leaves m vs H. apply andb_prop in H.
-  exact (get_view_correct nodes ipfx lpfx leaves m vs (proj1 H)).
-Qed.
+Proof. exact get_view_fw. Qed.
 Print Assumptions L3_get_view.
 
 (* getLeftChildID for every label bit, leftMost's and rightMost's rank: the child behind the
@@ -123,10 +116,7 @@ Theorem L3_children : forall nodes ipfx lpfx leaves m vs,
         left_child m from to bm k =
         Val (N.of_nat (fc - 1 + count_lt (map N.of_nat labels) k),
              N.b2n (existsb (N.eqb k) (map N.of_nat labels))).
-Proof.
-  intros nodes ipfx lpfx leaves m vs H. apply andb_prop in H.
-  exact (children_correct nodes ipfx lpfx leaves m vs (proj1 H)).
-Qed.
+Proof. exact children_fw. Qed.
 Print Assumptions L3_children.
 
 (* getIthLeafBytes *)
@@ -141,10 +131,7 @@ Theorem L3_leaves : forall nodes ipfx lpfx leaves m,
      (forall l, (l < length elts)%nat -> ith_leaf_bytes m (N.of_nat l) = Val (Some (nth l elts []))) /\
      (forall l, blen elts <= l -> ith_leaf_bytes m l = Panic))
   end.
-Proof.
-  intros nodes ipfx lpfx leaves m H. apply andb_prop in H.
-  exact (leaves_correct nodes ipfx lpfx leaves m (proj1 H)).
-Qed.
+Proof. exact leaves_fw. Qed.
 Print Assumptions L3_leaves.
 
 (* ---- (d) no panic is reachable in the decoder on an encoded message --------- *)
@@ -223,7 +210,8 @@ Example L3_built_example :
   exists T r m vs, build ex_opt ex_keys ex_vals = Ok T /\ t_root T = Some r /\ trie_wf T = true /\
     encode_trie T = Val m /\ init_vars m = Val vs /\
     map (fun p => get_view m vs (N.of_nat p)) (seq 0 (length (flat_nodes r))) = map Val (flat_nodes r) /\
-    map (fun l => ith_leaf_bytes m l) [0; 1; 2] = [Val (Some ["001"%byte]); Val (Some []); Val (Some ["002"%byte; "003"%byte])] /\
+    (* leaf values are stored in breadth-first leaf order: "bxy" is the shallowest leaf *)
+    map (fun l => ith_leaf_bytes m l) [0; 1; 2] = [Val (Some ["002"%byte; "003"%byte]); Val (Some ["001"%byte]); Val (Some [])] /\
     ith_leaf_bytes m 3 = Panic.
 Proof.
   destruct (build ex_opt ex_keys ex_vals) as [T|] eqn:E; [|vm_compute in E; discriminate].
